@@ -19,14 +19,16 @@ VARIABLES fields, mode, pc, listed, species, rows
 vvars == <<fields, mode, pc, listed, species, rows>>
 
 Rng(s) == {s[i] : i \in DOMAIN s}
-Universe == {"density", "temp", "x_velocity", "y_velocity", "Y(H2)", "Y(O2)", "foo", "bar"}
+\* "Y(CH2(S))": a species whose name has parentheses of its own; "Y(H2)_avg": NOT a mass fraction (the pattern is anchored at
+\* both ends) although it begins like one -- an unknown name, listed as itself, contributing no species
+Universe == {"density", "temp", "x_velocity", "y_velocity", "Y(H2)", "Y(O2)", "Y(CH2(S))", "Y(H2)_avg", "foo", "bar"}
 \* the pattern table, in dictionary order: <<class key, names it matches>>
 Table == <<<<"density", {"density"}>>, <<"temp", {"temp"}>>, <<"velocity", {"x_velocity", "y_velocity"}>>,
-           <<"Y", {"Y(H2)", "Y(O2)"}>>>>
+           <<"Y", {"Y(H2)", "Y(O2)", "Y(CH2(S))"}>>>>
 ClassOf(f) == IF \E i \in DOMAIN Table : f \in Table[i][2]
               THEN Table[CHOOSE i \in DOMAIN Table : f \in Table[i][2] /\ \A j \in 1..(i - 1) : f \notin Table[j][2]][1]
               ELSE f
-IsSpecies(f) == f \in {"Y(H2)", "Y(O2)"}
+IsSpecies(f) == f \in {"Y(H2)", "Y(O2)", "Y(CH2(S))"}
 
 Init == /\ fields \in {s \in UNION {[1..n -> Universe] : n \in 1..MaxFields} : \A i, j \in DOMAIN s : i # j => s[i] # s[j]}
         /\ mode \in {"default", "description", "minmax", "finest"}
